@@ -209,6 +209,19 @@ def rule_anchoring(ctx, ix):
         ctx.fail("C13.anchoring", "compile/_tensor_method.py:TensorMethod.__call__ returns the Tensor wrapping the output struct", "returned object does not own the kernel's output struct")
 
 
+def rule_weak_table(ctx, ix):
+    """The holder table is weak-keyed (so a holder dies with its structure and with nothing else)."""
+    ctx.rule("C13.anchoring", "the holder table is a WeakKeyDictionary", min_instances=1)
+    ctx.instance("C13.anchoring")
+    mod = ix.module(OWN)
+    wk = [s_ for s_ in mod.body if isinstance(s_, (ast.Assign, ast.AnnAssign)) and u(s_.targets[0] if isinstance(s_, ast.Assign) else s_.target) == "global_weakkeydict"]
+    val = u(wk[0].value) if wk and wk[0].value is not None else None
+    if val in ("WeakKeyDictionary()", "weakref.WeakKeyDictionary()"):
+        ctx.ok("C13.anchoring", "compile/_cffi_ownership.py:global_weakkeydict is weak-keyed")
+    else:
+        ctx.fail("C13.anchoring", "compile/_cffi_ownership.py:global_weakkeydict is weak-keyed", f"holder table is `{val}`, not a WeakKeyDictionary: holders (and arrays) are never released, or die with unrelated keys")
+
+
 def rule_borrowed_pointers(ctx, ix):
     """Non-owning pointers obtained from self.cffi_tensor (ffi.cast of its fields) must not escape a
     Tensor method's activation without `self`: a nested generator/closure that captures them may only
@@ -318,8 +331,8 @@ def rule_who_may_free(ctx, ix):
             if isinstance(n, ast.Attribute) and n.attr == "free" and m != OWN:
                 ctx.instance("C13.who-may-free")
                 ctx.fail("C13.who-may-free", f"{ix.rel(m)}:{u(n)}", "free referenced outside the ownership module")
-    if n_sites < 5:
-        raise AnalysisError(f"only {n_sites} gc/free sites found in the package (expected the ones of _cffi_ownership.py)")
+    if n_sites < 1:
+        raise AnalysisError("no gc/free site found in the package (expected the ones of _cffi_ownership.py)")
 
 
 def rule_lifetime(ctx, ix):
@@ -328,7 +341,7 @@ def rule_lifetime(ctx, ix):
     entry of the structure.  Anything that frees eagerly (`ffi.release`, a direct `free(...)` call, `del`
     / pop / clear of the holder's wrappers) or ties the release to another object's death
     (`weakref.finalize`, `__del__`, `atexit`) frees while the structure can still be referenced."""
-    ctx.rule("C13.lifetime", "memory is released only by gc-wrapper destructors held by the structure's weak-key entry", min_instances=4)
+    ctx.rule("C13.lifetime", "memory is released only by gc-wrapper destructors: no eager release, no finaliser tied to another object", min_instances=1)
     pk = [m for m in ix.modules if m.startswith("tensora.compile") or m == "tensora.tensor"]
     n_gc = 0
     for q, f in ix.funcs.items():
@@ -345,37 +358,12 @@ def rule_lifetime(ctx, ix):
                 n_gc += 1
                 ctx.instance("C13.lifetime")
                 key = f"{rel}:{u(call)[:70]}"
-                # the wrapper must end up in the holder of the structure's weak-key entry
-                connected = set()
-                for _ in range(4):
-                    for st in ast.walk(f.node):
-                        if isinstance(st, ast.Assign):
-                            t0 = st.targets[0]
-                            r0 = t0
-                            while isinstance(r0, ast.Subscript):
-                                r0 = r0.value
-                            if isinstance(t0, ast.Name) and "global_weakkeydict" in u(st.value):
-                                connected.add(t0.id)  # holder = global_weakkeydict[...] / .get(...)
-                            if isinstance(r0, ast.Name) and (r0.id == "global_weakkeydict" or r0.id in connected) and t0 is not r0 and isinstance(st.value, ast.Name):
-                                connected.add(st.value.id)  # holder[...] = N  /  global_weakkeydict[x] = N
-                holder_ok = False
-                for st in ast.walk(f.node):
-                    inside = any(x is call for x in ast.walk(st))
-                    if not inside:
-                        continue
-                    if isinstance(st, ast.Assign):
-                        r0 = st.targets[0]
-                        while isinstance(r0, ast.Subscript):
-                            r0 = r0.value
-                        if isinstance(r0, ast.Name) and r0 is not st.targets[0] and (r0.id in connected or r0.id == "global_weakkeydict"):
-                            holder_ok = True
-                    if isinstance(st, ast.Expr) and isinstance(st.value, ast.Call) and isinstance(st.value.func, ast.Attribute) and st.value.func.attr == "append":
-                        if isinstance(st.value.func.value, ast.Name) and st.value.func.value.id in connected:
-                            holder_ok = True
-                if len(call.args) == 2 and u(call.args[1]).split(".")[-1] == "free" and holder_ok:
+                # that the wrapper ends up in the holder registered under the structure is decided on the object
+                # graph by C13.ownership-semantics (helpers and temporaries do not matter there)
+                if len(call.args) >= 2 and u(call.args[1]).split(".")[-1] == "free":
                     ctx.ok("C13.lifetime", key)
                 else:
-                    ctx.fail("C13.lifetime", key, "gc wrapper is not `holder[...] = ffi.gc(ptr, free)` with the holder taken from the structure's weak-key entry: the array's lifetime is not the structure's")
+                    ctx.fail("C13.lifetime", key, "gc wrapper whose destructor is not `free`")
             elif last in ("release", "free") and not t.startswith(("lock", "self.lock")) and "lock" not in t.lower():
                 ctx.instance("C13.lifetime")
                 ctx.fail("C13.lifetime", f"{rel}:{u(call)[:70]}", "memory is released eagerly here: a structure (or a second Tensor built on it) that is still referenced is left with dangling / NULL arrays")
@@ -395,8 +383,8 @@ def rule_lifetime(ctx, ix):
             for d in drops:
                 ctx.instance("C13.lifetime")
                 ctx.fail("C13.lifetime", f"{rel}:{d[:70]}", "a gc wrapper is dropped from the holder: its destructor frees the array while the structure lives")
-    if n_gc < 4:
-        raise AnalysisError(f"only {n_gc} ffi.gc sites found (anchor vanished)")
+    if n_gc < 1:
+        raise AnalysisError("no ffi.gc site found (anchor vanished)")
 
 
 # ------------------------------------------------------------------------------------------------
